@@ -89,7 +89,7 @@ static JV with_bool(JV a,const char*k,bool v){ JV b; b.k=JV::BOOL; b.b=v; a.o.pu
 // texts for the random sessions: every host kind, percent-encodings in both cases, dot segments, ':' and empty first segments
 static Text random_uri(Rng&R){
   static const char* sc[]={"","s:","s:","s:","S:","t:"}; static const char* au[]={"","","//h","//H%41","//u%3a@Ex.COM:1","//[ABCD::1]","//[vF.a:B]","//1.2.3.4","//","//u@h:","//g:80"};
-  static const char* seg[]={"",".","..","a","b","A","%41","%7e","%3A","%3a","%2e","%2E%2e","b:c","...","a%2Fb","x","y"}; static const char* qf[]={"","","?","?q","?a%41%3a","#","#f%7E","?q#f"};
+  static const char* seg[]={"",".","..","a","b","A","%41","%7e","%3A","%3a","%2e","%2E%2e","b:c","...","a%2Fb","x","1:2"}; static const char* qf[]={"","","?","?q","?a%41%3a","#","#f%7E","?q#f"};
   Text t=T(R.pick(std::vector<const char*>(sc,sc+6))); const char*a=au[R.below(11)]; t=t+T(a); bool abs=*a||R.below(2); int n=R.below(6); if(n==0&&!*a&&R.below(2)) abs=false;
   if(abs&&(n>0||R.below(2))) t.push_back('/'); for(int i=0;i<n;++i){ if(i) t.push_back('/'); t=t+T(seg[R.below(17)]); } return t+T(qf[R.below(8)]); }
 
